@@ -414,8 +414,8 @@ def run(ctx):
                         nxt[i].append(h)
         if ctx.thorough and level == 1:
             for i in range(n):
-                if len(nxt[i]) > 600:
-                    nxt[i] = nxt[i][:: max(1, len(nxt[i]) // 600)]
+                if len(nxt[i]) > 250:
+                    nxt[i] = nxt[i][:: max(1, len(nxt[i]) // 250)]
                     rep.extra["depth3_frontier_subsampled"] = 1
         frontier = nxt
     acc = Acc(seed=ctx.seed)
